@@ -14,21 +14,20 @@ package ast
 // also after syntax errors). evalphase() halves: what only the evaluator dereferences; they hold for
 // programs that parsed without error (assumption U4).
 
-//@ typeinv (n *IfExpression) = nnx(n.Condition) && n.Block != nil && forall i int :: 0 <= i && i < len(n.ElseIf) ==> n.ElseIf[i] != nil
-//@ typeinv (n *ElseIfExpression) = nnx(n.Condition) && n.Block != nil
-//@ typeinv (n *ForExpression) = nnx(n.Iterable) && (evalphase() ==> n.Block != nil)
+//@ typeinv (n *IfExpression) = wfx(n.Condition) && (evalphase() ==> n.Block != nil) && forall i int :: 0 <= i && i < len(n.ElseIf) ==> (evalphase() ==> n.ElseIf[i] != nil)
+//@ typeinv (n *ElseIfExpression) = wfx(n.Condition) && (evalphase() ==> n.Block != nil)
+//@ typeinv (n *ForExpression) = wfx(n.Iterable) && (evalphase() ==> n.Block != nil)
 //@ typeinv (n *FunctionLiteral) = n.Block != nil && forall i int :: 0 <= i && i < len(n.Parameters) ==> n.Parameters[i] != nil
 //@ typeinv (n *CallExpression) = nnx(n.Function) && wfx(n.Callee) && wfx(n.ChainCallee) && wfxs(n.Arguments)
 //@ typeinv (n *LetStatement) = wfx(n.Value) && (evalphase() ==> n.Name != nil)
 //@ typeinv (n *AssignExpression) = wfx(n.Value) && (evalphase() ==> n.Name != nil)
-//@ typeinv (n *IndexExpression) = nnx(n.Left) && nnx(n.Index) && wfx(n.Value) && wfx(n.Callee)
+//@ typeinv (n *IndexExpression) = wfx(n.Left) && wfx(n.Index) && wfx(n.Value) && wfx(n.Callee) && (is(n.Left, "*Identifier") ==> unbox(n.Left, "*Identifier").OriginalCallee != nil)
 //@ typeinv (n *InfixExpression) = wfx(n.Left) && wfx(n.Right)
 //@ typeinv (n *PrefixExpression) = wfx(n.Right)
 //@ typeinv (n *ReturnStatement) = wfx(n.ReturnValue)
 //@ typeinv (n *ExpressionStatement) = wfx(n.Expression)
-//@ typeinv (n *ArrayLiteral) = forall i int :: 0 <= i && i < len(n.Elements) ==> nnx(n.Elements[i])
-//@ typeinv (n *HashLiteral) = n.Pairs != nil && (forall i int :: 0 <= i && i < len(n.Order) ==> nnx(n.Order[i]) && has(n.Pairs, n.Order[i]) && nnx(n.Pairs[n.Order[i]])) &&
-//@     (forall k Expression :: has(n.Pairs, k) ==> nnx(k) && wfx(n.Pairs[k]))
+//@ typeinv (n *ArrayLiteral) = wfxs(n.Elements)
+//@ typeinv (n *HashLiteral) = n.Pairs != nil && wfxs(n.Order) && (forall k Expression :: has(n.Pairs, k) ==> nnx(k) && wfx(n.Pairs[k]))
 // literal template text is the template author's markup (definition of trusted text, see plush contracts)
 //@ typeinv (n *HTMLLiteral) = evalphase() ==> trusted(n.Value)
 //@ typeinv (n *BlockStatement) = forall i int :: 0 <= i && i < len(n.Statements) ==> nnx(n.Statements[i])
